@@ -21,6 +21,7 @@ from . import interp as I
 from . import builtins_ as B
 from . import shapes as S
 from . import ops
+from . import linearize as LZ
 
 S.install(B)
 
@@ -85,6 +86,10 @@ class Contract:
         self.finite_scope = a.get("finite_scope", None)
         self.timeout_s = a.get("timeout_s", None)
         self.abstract_round = bool(a.get("abstract_round", False))
+        self.loop_vars = a.get("loop_vars", {})
+        self.uses = a.get("uses", {})
+        self.chain = bool(a.get("chain", False))
+        self.scope = a.get("scope", None)  # e.g. "finite: lengths 0..3" -> not counted as proved
         self.dep = bool(deco_kw.get("dep", False))
         self.modular_ensures = a.get("modular_ensures", None)
 
@@ -306,14 +311,27 @@ def solve(pc, goal, timeout_s=10, want_model=True, use_cvc5=True):
     """validity of pc => goal; a conjunctive goal that is not decided as a whole is split
     into its conjuncts (each must be valid)."""
     parts = _conjuncts(z3.simplify(goal))
-    r = solve1(pc, goal, min(timeout_s, 3) if len(parts) > 1 else timeout_s, want_model, use_cvc5=False)
+    r = solve1(pc, goal, min(timeout_s, 3), want_model, use_cvc5=False)
     if r["verdict"] != "unknown":
         return r
+    t1 = time.time()
+    if LZ.check_linearized(pc, goal, timeout_s) == "unsat":
+        return {"verdict": "unsat", "backend": "z3-linearized", "time": r["time"] + time.time() - t1}
+    if len(parts) <= 1 and timeout_s > 3:
+        r2 = solve1(pc, goal, timeout_s, want_model, use_cvc5=False)
+        r2["time"] += r["time"] + time.time() - t1
+        r = r2
+        if r["verdict"] != "unknown":
+            return r
     if len(parts) > 1:
         t0 = time.time()
         backends = set()
         for g in parts:
-            rp = solve1(pc, g, timeout_s, want_model, use_cvc5)
+            rp = solve1(pc, g, min(timeout_s, 3), want_model, use_cvc5=False)
+            if rp["verdict"] == "unknown" and LZ.check_linearized(pc, g, timeout_s) == "unsat":
+                rp = {"verdict": "unsat", "backend": "z3-linearized", "time": 0}
+            if rp["verdict"] == "unknown":
+                rp = solve1(pc, g, timeout_s, want_model, use_cvc5)
             backends.add(rp["backend"])
             if rp["verdict"] != "unsat":
                 rp["time"] = time.time() - t0 + r["time"]
@@ -322,8 +340,51 @@ def solve(pc, goal, timeout_s=10, want_model=True, use_cvc5=True):
     if use_cvc5:
         r2 = solve1(pc, goal, timeout_s, want_model, use_cvc5=True)
         r2["time"] += r["time"]
-        return r2
+        r = r2
+        if r["verdict"] != "unknown":
+            return r
+    r3 = small_domain_model(pc, goal, timeout_s)
+    if r3 is not None:
+        r3["time"] += r["time"]
+        return r3
     return r
+
+
+def _int_consts(terms):
+    seen, out, stack = set(), {}, list(terms)
+    while stack:
+        t = stack.pop()
+        if t.get_id() in seen:
+            continue
+        seen.add(t.get_id())
+        if z3.is_quantifier(t):
+            stack.append(t.body())
+            continue
+        if z3.is_const(t) and t.decl().kind() == z3.Z3_OP_UNINTERPRETED:
+            if t.sort() in (z3.IntSort(), z3.RealSort()):
+                out[t.decl().name()] = t
+        stack.extend(t.children())
+    return list(out.values())
+
+
+def small_domain_model(pc, goal, timeout_s):
+    """counterexample search only: restrict every numeric unknown to a small box (and reals
+    to multiples of 1/4).  A model found this way is a genuine model of pc and not goal."""
+    cs = _int_consts(list(pc) + [goal])
+    for bound in (4, 16, 64, 1024, 40000):
+        t0 = time.time()
+        s = z3.Solver()
+        s.set("timeout", int(max(2, timeout_s / 2) * 1000))
+        for t in pc:
+            s.add(t)
+        s.add(z3.Not(goal))
+        for c in cs:
+            s.add(c >= -bound, c <= bound)
+            if c.sort() == z3.RealSort():
+                s.add(z3.IsInt(c * 4))
+        if s.check() == z3.sat:
+            return {"verdict": "sat", "backend": f"z3-smalldomain({bound})", "time": time.time() - t0, "model": s.model()}
+    return None
 
 
 def solve1(pc, goal, timeout_s=10, want_model=True, use_cvc5=True):
@@ -396,6 +457,25 @@ class Obl:
         self.path = path
         self.inputs = inputs
         self.extra = extra or {}
+
+
+def lemma_instances(world, ip, c, clause, av):
+    """`uses = {clause or "*": [(lemma name, lambda <args>: {lemma arg: value})]}` -- the
+    instantiated statement of a lemma (proved separately, for all values) as an assumption"""
+    out = []
+    for key in (clause, "*"):
+        for lname, inst in c.uses.get(key, []):
+            lem = getattr(world, "lemmas", {}).get(lname)
+            if lem is None:
+                raise EngineError(f"{c.name}: unknown lemma {lname}")
+            vals = call_clause(ip, inst, av)
+            if not isinstance(vals, dict) or set(vals) != set(lem.args):
+                raise EngineError(f"{c.name}: instantiation of {lname} must give exactly {sorted(lem.args)}")
+            req = [to_bool_term(ip.truth(call_clause(ip, r, vals))) for r in lem.requires]
+            st = to_bool_term(ip.truth(call_clause(ip, lem.statement, vals)))
+            out.append(z3.Implies(z3.And(*req) if req else z3.BoolVal(True), st))
+            ip.used_contracts.add("lemma:" + lname)
+    return out
 
 
 def witness_term(world, c, kf, args):
@@ -500,6 +580,10 @@ def verify_contract(world, c, tier="quick", loop_support=None, known=None):
             except PyRaise as pr:
                 val = pr.exc
                 kind = "raise"
+            except I.PathPruned:
+                if ip.obligations:
+                    return PathResult("pruned", None, list(ip.pc), allv, list(ip.obligations), ip)
+                raise
             return PathResult(kind, val, list(ip.pc), allv, list(ip.obligations), ip)
 
         results = explore(world, run)
@@ -515,6 +599,10 @@ def verify_contract(world, c, tier="quick", loop_support=None, known=None):
             if pr.kind == "lemma":
                 covers["returns"] += 1
                 continue
+            if pr.kind == "pruned":
+                covers["paths"] -= 1
+                covers["loop_bodies"] = covers.get("loop_bodies", 0) + 1
+                continue
             # evaluate the post-state clauses on this path
             V._counter[0] = 10_000_000 + k * 1000
             ipc = I.Interp(world)
@@ -527,9 +615,13 @@ def verify_contract(world, c, tier="quick", loop_support=None, known=None):
             if pr.kind == "return":
                 covers["returns"] += 1
                 av["result"] = pr.value
+                proved_so_far = []
                 for nm, cl in c.ensures.items():
                     t = ipc.truth(call_clause(ipc, cl, av))
-                    obls.append(Obl(f"post:{nm}@{ptag}", pr.pc + ipc.pc[len(pr.pc):], to_bool_term(t), "post", k, pr.args, {"result": pr.value}))
+                    hints = lemma_instances(world, ipc, c, nm, av)
+                    goal = to_bool_term(t)
+                    obls.append(Obl(f"post:{nm}@{ptag}", pr.pc + ipc.pc[len(pr.pc):] + hints + (proved_so_far if c.chain else []), goal, "post", k, pr.args, {"result": pr.value}))
+                    proved_so_far = proved_so_far + [goal]
                 for exc, cond in c.raises.items():
                     t = ipc.truth(call_clause(ipc, cond, pr.args))
                     obls.append(Obl(f"raises:{exc}-if@{ptag}", pr.pc, to_bool_term(b_not(t)), "raises", k, pr.args, {"result": pr.value}))
